@@ -1,5 +1,6 @@
 import Bw.Pipeline
 import Bw.Lemmas.BSearch
+import Bw.Lemmas.LineDiff
 /-! # C02 — diff mode validates exactly the touched blocks, with full-scan verdicts -/
 namespace Bw.Props.C02
 open Bw Bw.Blocks Bw.Diff Bw.Val Bw.Pipe
@@ -117,10 +118,6 @@ theorem bsearch_sound {α} (l : List α) (f : α → Ordering) (h : bsearchFound
       rw [hx] at h
       exact ⟨x, List.mem_of_getElem? hx, by simpa using h⟩
 
-/-- the changed ranges of a line as `line_diff` leaves them: non-inverted, in order, not overlapping -/
-def SortedRanges (rs : List (Nat × Nat)) : Prop :=
-  (∀ r ∈ rs, r.1 ≤ r.2) ∧ rs.Pairwise (fun a b => a.2 ≤ b.1)
-
 /-- over such ranges the comparator handed to `binary_search_by` is monotone: ranges left of the block's columns
     (`Less`), touching ones (`Equal`), ranges right of them (`Greater`) -/
 theorem rangeCmp_mono (incl : Bool) (sc : Nat) (ec : Option Nat) (rs : List (Nat × Nat)) (h : SortedRanges rs) :
@@ -195,6 +192,25 @@ theorem hit_exact (incl : Bool) (s e : Pos) (c : LC) (rs : List (Nat × Nat)) (h
           · simp [hl] at hxe
       · rintro ⟨r, hrm, ht⟩
         exact bsearch_complete rs _ (rangeCmp_mono incl _ _ rs hs) r hrm (by simp [rangeCmp, ht])
+
+/-- **`line_diff` satisfies that hypothesis** whenever `similar`'s ops come consecutively over the new line (`Consec`:
+    every op starts where the previous one ended). `similar` does not guarantee this for very dissimilar pairs (it may report
+    a deletion's new index after the following equal run; counted in the evidence), so the hypothesis of `hit_exact` is in
+    addition checked directly on every implementation outcome -/
+theorem line_diff_sorted (new : Text) (ops : List Diff.Op) (h : Consec new.length 0 ops) :
+    SortedRanges (lineDiffOps new ops none []) := lineDiffOps_sorted new ops h
+
+/-- … so for an edited line the search is exact outright -/
+theorem edited_line_hit_exact (incl : Bool) (s e : Pos) (line : Nat) (new : Text) (ops : List Diff.Op)
+    (h : Consec new.length 0 ops) :
+    hit incl s e ⟨line, some (lineDiffOps new ops none [])⟩ = true ↔
+      s.line ≤ line ∧ line ≤ e.line ∧
+      ∃ r ∈ lineDiffOps new ops none [], touches incl (if line = s.line then s.col - 1 else 0)
+        (if line < e.line then none else some (e.col - 1)) r = true :=
+  hit_exact incl s e ⟨line, some (lineDiffOps new ops none [])⟩ _ rfl (line_diff_sorted new ops h)
+
+example : Consec 5 0 [.equal 0 0 2, .delete 2 1 2, .equal 3 2 1, .replace 4 1 3 2] := by
+  simp [Consec]
 
 example : SortedRanges [(0, 2), (3, 4), (5, 6)] := by
   refine ⟨by decide, ?_⟩
